@@ -198,6 +198,18 @@ COLUMN_ATOL = (("v_", 1e-5), ("vdot", 1e-6), ("mdot", 1e-7), ("reynolds", 1.0), 
                ("compr_power", 1e-9))
 
 
+# quantities computed from the branch mass flow inherit its absolute error (~1e-7 kg/s after the tight solves):
+# their relative error is ~1e-7/|mdot|, e.g. 1e-4 for a 1 g/s loop flow in a mesh
+FLOW_DERIVED = ("v_", "vdot", "reynolds", "lambda", "dp_friction_loss", "compr_power")
+MDOT_ABS_ERR = 2e-7
+
+
+def flow_rtol(col, mdot_abs, base):
+    if not col.startswith(FLOW_DERIVED):
+        return base
+    return max(base, MDOT_ABS_ERR / max(float(mdot_abs), ZERO_FLOW_ABS))
+
+
 def _atol_for(col, default):
     for prefix, a in COLUMN_ATOL:
         if col.startswith(prefix):
@@ -257,7 +269,12 @@ def results_close(a, b, rtol=1e-9, atol=1e-12, tables=None, index_map=None, mask
                 fin = np.concatenate([np.abs(da[c].values.astype(np.float64)), np.abs(db[c].values.astype(np.float64))])
                 fin = fin[np.isfinite(fin)]
                 col_atol = max(_atol_for(c, atol), 1e-12 * (fin.max() if len(fin) else 0.0))
-            ok = np.isclose(va[~nan_a], vb[~nan_b], rtol=rtol, atol=col_atol)
+            rt = rtol
+            if mask_zero_flow and "mdot_from_kg_per_s" in da.columns and c.startswith(FLOW_DERIVED) and len(va) == len(da):
+                mm = np.minimum(np.abs(da["mdot_from_kg_per_s"].values.astype(np.float64)), np.abs(db["mdot_from_kg_per_s"].values.astype(np.float64)))
+                rt = np.maximum(rtol, MDOT_ABS_ERR / np.maximum(mm, ZERO_FLOW_ABS))[~nan_a]
+            x_, y_ = va[~nan_a], vb[~nan_b]
+            ok = np.abs(x_ - y_) <= col_atol + rt * np.abs(y_)
             if not np.all(ok):
                 diffs.append("%s.%s" % (t, c))
     return diffs
